@@ -69,6 +69,7 @@ struct srv_cfg {
 	int accept_policy;           /* 0 accept all; 1 by uid/gid table (C05) */
 	int read_all_bytes;          /* msg_process touches every byte it was told about (C06) */
 	int lifecycle_random;        /* C04: random actions inside callbacks */
+	int accept_delay_ms;         /* the accept callback takes this long (C03: the peer can die meanwhile) */
 	uint64_t seed;
 };
 void bed_server_main(const struct srv_cfg *cfg, const char *dir) __attribute__((noreturn));
